@@ -134,7 +134,14 @@ def run(ctx):
 
     chain_gen = pool.submit(ctx.generate, "MC_Chaining", ctx.cfg("gchain.cfg", CHAIN_GEN_CFG.format(maxlen=2 if quick else 3)))
     submit_generators(ctx, quick, gen)
+    # wait for every TLC run before any worker process is forked (no fork while threads are running)
     cases = chain_gen.result()
+    scripts = []
+    for f in gens:
+        scripts += f.result()
+    for f in models:
+        f.result()
+    pool.shutdown()
     cjobs = [(c, "c%d" % i) for i, c in enumerate(cases)]
     ctraces = ctx.pmap(c16_resolver.chain_job, cjobs)
     ctx.extra["chaining_cases"] = len(cases)
@@ -148,12 +155,6 @@ def run(ctx):
     ctx.sample({"chaining": ctraces[len(ctraces) // 2]["ev"][0]})
 
     # ---------------------------------------------------------------- Resolution on the code
-    scripts = []
-    for f in gens:
-        scripts += f.result()
-    for f in models:
-        f.result()
-    pool.shutdown()
     seen = set()
     uniq = []
     for s in scripts:
